@@ -3,4 +3,5 @@ From Coq Require Import ExtrOcamlBasic.
 From OlaBase Require Import Bytes.
 From C01 Require Import Gen Model.
 Extraction Language OCaml.
-Extraction "model.ml" io_witness N.div_eucl init_ust step fanout live.
+Extraction "model.ml" io_witness N.div_eucl init_world step apply_update live scan changed_source
+  port_sources client_sources.
